@@ -77,7 +77,8 @@ where
                     3 => b.with_typed_qualifier(v.map(FileName::from)),
                     4 => b.with_typed_qualifier(v.map(Classifier::from)),
                     5 => b.with_typed_qualifier(v.map(MavenType::from)),
-                    _ => b.with_typed_qualifier(v.map(Platform::from)),
+                    6 => b.with_typed_qualifier(v.map(Platform::from)),
+                    _ => b.with_typed_qualifier(v.map(crate::mon::c11::MixedKey::from)),
                 })
             },
             Call::Checksum(entries) => {
